@@ -56,7 +56,7 @@ func makeColumn[T any, L tlist[T, L]](k *kind[T, L], vals []T, r *vlib.Rand) *co
 		l, ctor = k.newCap(30), "cap 30"
 	}
 	if r.Bool() {
-		l.AddAllArray(vals)
+		l.AddAllArray(append([]T(nil), vals...)) // vals is the model: the library never sees it
 	} else {
 		for _, v := range vals {
 			k.add(l, v)
